@@ -40,6 +40,10 @@ def _target_src(kind, a):
         return f"#[typeshare]\n{a}pub struct Target;\n"
     if kind == "newtype_struct":
         return f"#[typeshare]\n{a}pub struct Target(String);\n"
+    if kind == "sas_struct":          # shared as an alias of another type; the container's rename_all is about its fields, not its name
+        return f'#[typeshare(serialized_as = "String")]\n#[serde(rename_all = "camelCase")]\n{a}pub struct Target {{ pub inner_part: u32 }}\n'
+    if kind == "sas_enum":
+        return f'#[typeshare(serialized_as = "String")]\n#[serde(rename_all = "snake_case")]\n{a}pub enum Target {{ FirstOne, SecondOne }}\n'
     if kind == "recursive_struct":
         return f"#[typeshare]\n{a}pub struct Target {{ pub next: Option<Box<Target>>, pub kids: Vec<Target> }}\n"
     if kind == "recursive_enum":
@@ -226,6 +230,9 @@ def run(chk):
     def sib_key(lang, case, site):
         return (lang, site, tuple(sorted((k, str(v)) for k, v in case.items() if k != "ident")))
     bad_plain = {sib_key(*meta[b - 1][:3]) for b in tres.bad if meta[b - 1][1].get("ident", "Target") == "Target"}
+    # a type shared through serialized_as is generated as an alias: where the plain alias of the same case fails at the same site,
+    # the failure is the alias's (one root cause, one signature)
+    bad_alias = {sib_key(meta[b - 1][0], dict(meta[b - 1][1], kind="-"), meta[b - 1][2]) for b in tres.bad if meta[b - 1][1]["kind"] == "alias"}
     for b in tres.bad:
         e = events[b - 1]
         lang, case, site, src = meta[b - 1]
@@ -244,7 +251,10 @@ def run(chk):
                          {"case": case, "lang": lang, "site": site}, exp, e["ref"])
             continue
         where = lang + ("+folder" if case.get("mode") == "folder" else "") + (":" + case["elsewhere"] if case.get("elsewhere", "none") != "none" else "")
-        chk.mismatch(f"C09/{where}{ident_dim}/{case['kind'] if not site.startswith('second') else 'struct'}/{site_dim}/{'renamed' if e['target'].get('rename') else 'plain'}/"
+        kind_dim = case["kind"]
+        if kind_dim in ("sas_struct", "sas_enum") and sib_key(lang, dict(case, kind="-"), site) in bad_alias:
+            kind_dim = "alias"
+        chk.mismatch(f"C09/{where}{ident_dim}/{kind_dim if not site.startswith('second') else 'struct'}/{site_dim}/{'renamed' if e['target'].get('rename') else 'plain'}/"
                      f"{'prefix' if e['prefix'] else 'noprefix'}/ref={form}/def={'present' if defined else 'absent'}",
                      f"{lang}: {site} reference to {e['target']} is spelled `{e['ref']}`, definition name required `{exp}`; definitions: {e['defs']}",
                      {"case": case, "lang": lang, "site": site}, exp, e["ref"])
